@@ -61,6 +61,7 @@ static void build_ops(void) {
     for (l = 0; l <= H; l++) { ops[nops].kind = OP_PUSH; ops[nops].len = l; nops++; }
     if (H >= 3) { ops[nops].kind = OP_PUSHX; ops[nops].len = 3; ops[nops].xlen = 1; nops++; }
     if (H >= 4) { ops[nops].kind = OP_PUSHX; ops[nops].len = H; ops[nops].xlen = 2; nops++; }
+    if (H >= 3) { ops[nops].kind = OP_PUSHX; ops[nops].len = 2; ops[nops].xlen = 2; nops++; }      /* explicit length == text length: source not terminated */
     ops[nops++].kind = OP_PUSHN;
     ops[nops++].kind = OP_QUERY;
     ops[nops++].kind = OP_CLEAR;
@@ -145,7 +146,8 @@ static void do_push(int len, int xlen) {
     char letter = free_letter();
     int16_t code = (int16_t) -(100 + len + (xlen ? 30 : 0));
     memset(text, letter, (size_t) len); text[len] = 0;
-    SCPI_ErrorPushEx(&ctx, code, text, (size_t) xlen);
+    if (xlen && xlen == len) { char * src = (char *) malloc((size_t) len); memcpy(src, text, (size_t) len); SCPI_ErrorPushEx(&ctx, code, src, (size_t) xlen); free(src); }
+    else SCPI_ErrorPushEx(&ctx, code, text, (size_t) xlen);
     model_push(code, letter, (xlen && xlen < len) ? xlen : len);
 }
 
@@ -250,6 +252,34 @@ int main(int argc, char ** argv) {
         mc_sample("heap=%d capacity=%d ops=%d states=%llu transitions=%llu depth=%d fixpoint=%d; deepest history: %s", H, cap, nops, m.states, m.transitions, m.depth_reached, m.fixpoint, mcx_tracebuf);
         { size_t i; for (i = 0; i < m.states; i++) mc_outcome(mc_hash(m.keys + i * sizeof (hkey_t), sizeof (hkey_t), (uint64_t) (H * 8 + cap))); }
         mcx_free(&m);
+        free(ering); free(heap);
+    }
+    /* a large heap (320 bytes) and texts longer than 255 characters: store, report, release, store again; then a text
+     * that needs the complete heap (linear scenario; the response is limited to 255 characters, so texts are compared
+     * as prefixes) */
+    if (MC_CASE()) {
+        static char big[330];
+        static const int lens[] = {300, 300, 319, 255, 256, 100, 319};
+        int i2, bad = 0;
+        mc_case_tag = "large-heap";
+        H = 0; cap = 4;
+        ering = (scpi_error_t *) mc_xalloc(sizeof (scpi_error_t) * 4); memset(ering, 0, sizeof (scpi_error_t) * 4);
+        heap = (char *) mc_xalloc(320);
+        SCPI_Init(&ctx, cmds, &itf, scpi_units_def, "a", "b", "c", "d", ibuf, sizeof ibuf, ering, 4);
+        SCPI_InitHeap(&ctx, heap, 320);
+        for (i2 = 0; i2 < 7 && !bad; i2++) {
+            char exp[600]; size_t el;
+            memset(big, 'a' + i2, (size_t) lens[i2]); big[lens[i2]] = 0;
+            SCPI_ErrorPushEx(&ctx, -222, big, (size_t) lens[i2]);
+            outn = 0; outbuf[0] = 0;
+            SCPI_Input(&ctx, "SYST:ERR?\n", 10);
+            el = (size_t) snprintf(exp, sizeof exp, "-222,\"%s;%s", SCPI_ErrorTranslate(-222), big);
+            if (el > 6 + 255) el = 6 + 255;            /* -222," + 255 characters of content */
+            if (strncmp(outbuf, exp, el) || strcmp(outbuf + el, "\"\r\n")) { mc_viol("c20/large-heap/text-lost-or-damaged", "heap 320, step %d: text of %d characters pushed on an empty queue came back as [%s]", i2, lens[i2], mc_e(outbuf, outn < 120 ? outn : 120)); bad = 1; }
+            if (SCPI_ErrorCount(&ctx) != 0 || ctx.error_info_heap.count != 320) { mc_viol("c20/large-heap/space-not-released", "heap 320, step %d: after the query count=%d free=%d", i2, (int) SCPI_ErrorCount(&ctx), (int) ctx.error_info_heap.count); bad = 1; }
+            transitions += 2;
+        }
+        n_nontrivial++;
         free(ering); free(heap);
     }
     mc_stat("states", states);
